@@ -94,6 +94,8 @@ class Spec:
             if D.get("w") is not None:
                 return est.fit(D["X"], D["y"], sample_weight=D["w"])
             return est.fit(D["X"], D["y"])
+        if D.get("w") is not None:
+            return est.fit(D["X"], sample_weight=D["w"])
         return est.fit(D["X"])
 
     def query(self, rng, D):
